@@ -62,6 +62,7 @@ type walker struct {
 	kinds   map[string]bool
 	r       *resp
 	funcs   []string
+	ops     []string
 }
 
 func (w *walker) walk(v interface{}) {
@@ -79,6 +80,8 @@ func (w *walker) walk(v interface{}) {
 					w.r.Params++
 				case "FuncCall":
 					w.funcs = append(w.funcs, funcName(val))
+				case "A_Expr":
+					w.ops = append(w.ops, exprOp(val))
 				}
 			}
 			w.walk(val)
@@ -104,6 +107,28 @@ func columnName(v interface{}) string {
 	}
 	return strings.Join(parts, ".")
 }
+
+// exprOp: "KIND:opname" of an A_Expr
+func exprOp(v interface{}) string {
+	m, _ := v.(map[string]interface{})
+	kind, _ := m["kind"].(string)
+	names, _ := m["name"].([]interface{})
+	var parts []string
+	for _, f := range names {
+		fm, _ := f.(map[string]interface{})
+		if s, ok := fm["String"].(map[string]interface{}); ok {
+			parts = append(parts, fmt.Sprint(s["sval"]))
+		}
+	}
+	unary := ""
+	if _, hasL := m["lexpr"]; !hasL {
+		unary = "unary"
+	}
+	return kind + ":" + strings.Join(parts, ".") + unary
+}
+
+var allowedOps = map[string]bool{"AEXPR_OP:=": true, "AEXPR_OP:<": true, "AEXPR_OP:>": true, "AEXPR_OP:<=": true, "AEXPR_OP:>=": true, "AEXPR_OP:~": true,
+	"AEXPR_BETWEEN:BETWEEN": true, "AEXPR_IN:=": true, "AEXPR_SIMILAR:~": true}
 
 func funcName(v interface{}) string {
 	m, _ := v.(map[string]interface{})
@@ -201,6 +226,12 @@ func handle(sql string) resp {
 	for _, c := range r.Columns {
 		if strings.Contains(c, ".") || c == "?" {
 			r.Confined = false
+		}
+	}
+	for _, o := range w.ops {
+		if !allowedOps[o] {
+			r.Confined = false
+			r.Shape += "operator " + o + "; "
 		}
 	}
 	return r
